@@ -5,6 +5,7 @@ import Logrange.Model.EscapeJson
 import Logrange.Model.PosStr
 import Logrange.Model.Nesting
 import Logrange.Model.Format
+import Logrange.Model.ShowPartitions
 import Logrange.Generated.C13
 /-! Model driver for C13 (decoders, escaper, positions, field lists). Byte strings are hex (`-` = empty). Requests:
 
@@ -19,6 +20,7 @@ import Logrange.Generated.C13
 * `pos <s>` → `ok <cid> <idx>` | `err` | `panic`;  `statepos <s>` → `ok <jrnl>=<cid>.<idx>…` | `err` | `panic`
 * `f.value <fields> <name>` · `f.items <fields>` · `f.check <fields>` · `f.build (<part> <trimmed> <unquoted|!|=>)*`
 * `nest <budget> <text>` → `ok <depth>` | `err` (refused by the nesting guard, when /repo has one) | `panic` (stack budget exhausted)
+* `showparts <n> <offset|none> <limit|none>` → `ok <k>` (partitions on the page) | `err` | `panic f55=<0|1>`: `SHOW PARTITIONS` paging over n partitions
 * `nest.hole <text>` → `1` | `0`: the class of F25b (the byte-scan guard lets the text pass, its token nesting exceeds the limit)
 * `fmt.parse <fstr>` → `ok <field>…` (`ts:<layout>` `msg:<arg>` `var:<name>` `vars` `const:<text>`) | `err` | `panic`; `strings.ToLower`
   is ASCII lower-casing here (the harness only compares format strings on which the two agree)
@@ -154,6 +156,15 @@ def step (_ : Unit) (toks : List String) : Unit × String :=
      | .err => "err"
      | .panic _ => "panic"
      | .outOfFuel => "fuel")
+  | ["showparts", n, o, l] =>
+    (match Driver.optInt o, Driver.optInt l with
+     | some off, some lim =>
+       (match ShowPartitions.showPartitionsNow n.toNat! off lim with
+        | .ok idx => s!"ok {idx.length}"
+        | .err => "err"
+        | .panic _ => if ShowPartitions.negativeArg off lim then "panic f55=1" else "panic f55=0"
+        | .outOfFuel => "fuel")
+     | _, _ => "bad-op")
   | ["nest.hole", s] => if Nesting.holeClass Logrange.Generated.C13.lqlMaxNesting (unhex s) then "1" else "0"
   | ["fmt.parse", f] =>
     let lower : Bytes → Bytes := fun b => b.map fun c => if 65 ≤ c.toNat ∧ c.toNat ≤ 90 then UInt8.ofNat (c.toNat + 32) else c
